@@ -307,6 +307,15 @@ def run(rec, shard, nshards, t):
                 rf.rules.insert(rnd.randint(0, len(rf.rules)), R.Rule('AfterTransform', rnd.choice(['startswith("STAR")', 'startswith("EATS") or startswith("TRIP")',
                                                                                              'startswith("COSTCO")']), 'Transformed', 'x'))
                 rec.count('files_with_failing_transform_before_deciding_one')
+            if rnd.random() < .12:
+                # a transform that strips a suffix spelled in another letter case than the statement text (strip_suffix / strip_prefix ignore case), and a rule
+                # ahead of the others that is true only once the suffix is gone
+                rf.transforms = list(rf.transforms) + [rnd.choice([('field.description', 'strip_suffix(field.description, " store 42")'),
+                                                                   ('field.description', 'strip_suffix(field.description, " GAS 100")'),
+                                                                   ('field.description', 'strip_prefix(field.description, "sq *")')])]
+                rf.rules.insert(0, R.Rule('SuffixGone', rnd.choice(['regex("STARBUCKS$") or regex("costco$")', 'description == "STARBUCKS" or description == "COSTCO"',
+                                                                   'startswith("STAR bucks REF")']), 'SuffixGone', 'x'))
+                rec.count('files_with_a_case_differing_suffix_transform')
             if rnd.random() < .15:
                 # normalized() ignores every kind of blank (no-break, thin, ideographic space too), hyphens, apostrophes, dots and asterisks
                 rf.rules.insert(rnd.randint(0, len(rf.rules)), R.Rule('NormFirst', rnd.choice(['normalized("UBEREATS")', 'normalized("WHOLEFOODSMKT")', 'normalized("whole foods")',
